@@ -300,4 +300,19 @@ Section PrefixReads.
         * destruct (M1 x2 (A2 _ S0) P2) as [->|L1]; [congruence|].
           rewrite Kb in L2. eapply dlt_asym; eauto.
   Qed.
+
+  (* a prefix read answered by the own write of the prefix itself: no smaller key can carry
+     the prefix, the answer is the same on every state *)
+  Lemma pget_sim_own ws p n fs e :
+    get_with_prefix fs p n (view s0 ws) = Some e -> own e = true -> e_key e = p ->
+    get_with_prefix fs p n (view c ws) = Some e.
+  Proof.
+    pose proof E as [S0 Sc C0 Cc Coh Per].
+    intros G O K. pose proof G as G'. rewrite gwp_unfold in G'. pose proof (gwp_of_some _ _ _ _ G') as F1.
+    destruct (find_view_own (pfx_cand p n) s0 c ws e S0 C0 Sc Cc F1 O) as (x2 & F2 & [->|[O2 L]]).
+    - rewrite gwp_unfold, F2. rewrite F1 in G'. exact G'.
+    - exfalso. apply find_some in F2 as [_ P2]. unfold pfx_cand in P2.
+      apply andb_prop in P2 as [_ P2]. rewrite K in L. unfold dlt in L. simpl in L.
+      apply bcmp_gt_lt in L. rewrite L in P2. discriminate.
+  Qed.
 End PrefixReads.
